@@ -23,7 +23,7 @@ replayable and matchable.  Per block at most one failure per (function, situatio
 is reported (the sweep itself is never cut short), and blocks are dealt over many work items."""
 import itertools
 
-from ..core import Sub, fail, lit
+from ..core import WholeFloats, Sub, fail, lit
 
 # --------------------------------------------------------------------------
 # the string spaces
@@ -904,4 +904,17 @@ class Substitute(Sharded):
         return None
 
 
-SUBS = [Slices(), SliceLaws(), LenConcat(), CaseTrimClean(), CodeChar(), Join(), Substitute()]
+class TextWholeFloats(WholeFloats):
+    name = 'c15.whole_floats'
+    TEMPLATES = [
+        ('LEFT("abcdef",{0})', [(0,), (2,), (6,), (9,)]),
+        ('RIGHT("abcdef",{0})', [(0,), (2,), (6,), (9,)]),
+        ('MID("abcdef",{0},{1})', [(1, 2), (3, 0), (6, 4), (7, 1)]),
+        ('CODE(CHAR({0}))', [(65,), (255,), (32,)]),
+        ('SUBSTITUTE("aXbXc","X","-",{0})', [(1,), (2,), (3,)]),
+        ('LEFT("abc",{0})&RIGHT("abc",LEN("abc")-{0})', [(0,), (1,), (3,)]),
+        ('TEXTJOIN(",",{0},"a",,"b")', [(1,), (0,)]),
+    ]
+
+
+SUBS = [Slices(), SliceLaws(), LenConcat(), CaseTrimClean(), CodeChar(), Join(), Substitute(), TextWholeFloats()]
